@@ -22,8 +22,7 @@ def run(chk):
                 "four dot-joined parts in the order prefix, period, id, ext, and read_file_name_ts() reads part 1 of "
                 "split('.'); a new file is named from the period of the same clock reading that decides rolling.")
     chk.trust("rustc nightly; Vec::pop/first/sort_by, str::split contracts")
-    chk.assume("membership of a file in the set (starts_with(prefix) && ends_with(ext)), calendar arithmetic of the rolling id and "
-               "zero-padded ordering of names are value-level and not decided (not claimed)")
+    chk.assume("membership of a file in the set (starts_with(prefix) && ends_with(ext)), calendar arithmetic of the rolling id is value-level and not decided (not claimed)")
     chk.exhaustive = True
 
     def r1():
@@ -477,6 +476,60 @@ def run(chk):
             sites += [rd[0].loc, op[0].loc]
         return True, "", sites
     chk.ob("C11.R9:period-from-own-name", "an opened file's period is parsed from the name of the very path that was opened", r9)
+
+
+    # ---- R10: names sort like the clock: every numeric component is fixed-width and zero-padded -----------------------------------
+    def r10():
+        from . import fmtspec
+        try:
+            ts = fmtspec.templates(P.body("emit_file::file_ts"))
+            fid = fmtspec.templates(P.body("emit_file::file_id"))
+            fnm = fmtspec.templates(P.body("emit_file::file_name"))
+        except fmtspec.BadTemplate as e:
+            return False, "a format template of the file-name writers could not be decoded (%s): ordering of names cannot be decided" % e, [], None
+        if len(ts) != 3 or len(fid) != 1 or len(fnm) != 1:
+            raise mir.AnchorMissing("format templates of file_ts (3 arms) / file_id / file_name (found %d/%d/%d)" % (len(ts), len(fid), len(fnm)))
+        b = P.body("emit_file::file_ts")
+        want_fields = ["years", "months", "days", "hours", "minutes"]
+        want_width = {"years": 4, "months": 2, "days": 2, "hours": 2, "minutes": 2}
+        seen_lens = set()
+        for loc, t, ops, traits in ts:
+            phs = [x[1] for x in t if x[0] == "ph"]
+            lits = [x[1] for x in t if x[0] == "lit"]
+            seen_lens.add(len(phs))
+            if len(set(lits)) > 1 or any("." in l for l in lits):
+                return False, "the period's components are joined by %s at %s (one separator, never '.', which separates the name's parts)" % (lits, loc), [], loc
+            for i, ph in enumerate(phs):
+                names = mir.o_field_path(b.origin(ops[ph["arg"]], through_calls=("deref",)))[1] if ops[ph["arg"]] is not None else []
+                fld = names[-1] if names else None
+                if fld != want_fields[i]:
+                    return False, "the period at %s writes `%s` in position %d; coarse-to-fine order is %s" % (loc, fld, i, want_fields[:len(phs)]), [], loc
+                pad = ph["zero_pad"] or (ph["fill"] == "0" and ph["align"] == 1)
+                if ph["width"] != want_width[fld] or not pad or ph["width_indirect"]:
+                    return False, ("the period at %s writes `%s` with width %s, zero padding %s: without a fixed zero-padded width "
+                                   "(%d) names no longer sort like the clock (month 10 sorts before month 9)"
+                                   % (loc, fld, ph["width"], pad, want_width[fld])), [], loc
+        if seen_lens != {3, 4, 5}:
+            return False, "day/hour/minute periods must write 3/4/5 components, found %s" % sorted(seen_lens), [], b.span
+        loc, t, ops, traits = fid[0]
+        phs = [x[1] for x in t if x[0] == "ph"]
+        fb = P.body("emit_file::file_id")
+        if len(phs) != 2 or [x for x in t if x[0] == "lit"] != [("lit", ".")]:
+            return False, "the id is not `<counter>.<random>`", [], loc
+        for ph, wantp, tr in zip(phs, (1, 2), ("new_display", "new_lower_hex")):
+            pad = ph["zero_pad"] or (ph["fill"] == "0" and ph["align"] == 1)
+            if ph["width"] != 8 or not pad:
+                return False, ("the id's component %d has width %s, zero padding %s: the in-period counter (up to 86,400,000 ms) and the "
+                               "32-bit id need 8 zero-padded digits to sort numerically" % (ph["arg"], ph["width"], pad)), [], loc
+            if fb.origin(ops[ph["arg"]])[:2] != ("param", wantp):
+                return False, "the id's components are not (counter, random id) in that order", [], loc
+            if traits[ph["arg"]] != tr:
+                return False, "the id's component %d is written with %s" % (ph["arg"], traits[ph["arg"]]), [], loc
+        loc, t, ops, traits = fnm[0]
+        if [x[1] for x in t if x[0] == "lit"] != [".", ".", "."] or any(x[1]["width"] is not None for x in t if x[0] == "ph"):
+            return False, "file_name must join its four parts with single dots and no padding (the reader splits on '.')", [], loc
+        return True, "", [x[0] for x in ts] + [fid[0][0], fnm[0][0]]
+    chk.ob("C11.R10:fixed-width-names", "every numeric component of a file name is zero-padded to a fixed width, coarse to fine, so descending name order is newest first", r10)
 
     common.builder_rules(chk, P, "C11", lambda b: b.key.startswith("emit_file::FileSetBuilder::"), 7)
     common.arg_agreement_rule(chk, P, "C11", [("emit_file", None)], 5)
